@@ -20,7 +20,7 @@ def _send_kind(fa, s):
 def r1(ctx, prop=P, rule="C13.R1"):
     owners = {}
     for fa in ctx.all_fas():
-        for s in sites(fa, EVENTS_SEND):
+        for s in _emit_sites(fa):
             owners.setdefault(fn_of(fa.body.name), []).append((fa, s))
     if ctx.crate.name == "hypercore":
         tot = sum(len(v) for v in owners.values())
@@ -44,8 +44,8 @@ def r1(ctx, prop=P, rule="C13.R1"):
             c = t.get("callee") or ""
             if c.startswith("async_broadcast::Sender") and ("broadcast" in c.split("::")[-1]):
                 tb.setdefault(fn_of(fa.body.name), []).append(site_desc(fa, s))
-    badb = [f for f in tb if f != EVENTS_SEND]
-    ctx.check(prop, rule, "the channel is written only by Events::send", not badb, "broadcast sites only in Events::send", "the event channel is written from %s" % badb, sum((tb[f] for f in badb), []))
+    badb = [f for f in tb if not f.startswith(EVENTS_SEND.rsplit("::", 1)[0] + "::")]
+    ctx.check(prop, rule, "the channel is written only by the methods of Events", not badb, "broadcast sites only in %s" % sorted(tb), "the event channel is written from %s" % badb, sum((tb[f] for f in badb), []))
     for f in (CLEAR, MAKE_RO):
         g = ctx.crate.group(f)
         if not g:
@@ -53,6 +53,20 @@ def r1(ctx, prop=P, rule="C13.R1"):
             continue
         n = sum(len(sites_any(ctx.fa(b), (EVENTS_SEND, EVENTS_SEND_ON_GET))) for b in g)
         ctx.check(prop, rule, "%s emits no event" % f.split("::")[-1], n == 0, "no send site", "%s contains %d event send site(s)" % (f, n))
+
+
+def _is_broadcast(t):
+    c = t.get("callee") or ""
+    return c.startswith("async_broadcast::Sender") and "broadcast" in c.split("::")[-1]
+
+
+def _emit_sites(fa):
+    """sites that put an event on the channel: Events::send(..) calls, and direct broadcasts made by
+    another method of Events (a send inlined by hand)"""
+    out = sites(fa, EVENTS_SEND)
+    if fn_of(fa.body.name) != EVENTS_SEND:
+        out = out + [s for s, t in fa.calls() if _is_broadcast(t)]
+    return out
 
 
 def _sends(fa):
@@ -174,10 +188,12 @@ def r5(ctx):
     # send_on_get sends exactly one Get with the index
     fs = ctx.fn(EVENTS_SEND_ON_GET)
     if need(ctx, P, rule, EVENTS_SEND_ON_GET, fs):
-        ss = sites(fs, EVENTS_SEND)
+        ss = _emit_sites(fs)
         good = len(ss) == 1 and not fs.loops()
         if good:
             a = strip(fs.arg_origin(ss[0], 1))
+            if is_agg(a, "Get") and a[1].endswith("Event"):
+                a = strip(agg_field(a, "0"))   # broadcast(Event::Get(Get{..})) written out
             good = is_agg(a) and a[1].endswith("Get") and strip(agg_field(a, "index")) == ("param", "index")
         ctx.check(P, rule, "send_on_get emits one Get{index}", good, "one Events::send(Get{index,..}), no loop", "send_on_get does not emit exactly one Get{index}")
     fe = ctx.fn(EVENTS_SEND)
